@@ -279,7 +279,13 @@ def str_to_int(I, s, base):
             I.raise_py('ValueError', 'invalid literal for int()')
         acc = 0
         for c in s.chars:
-            d = char_digit(I, c, base)
+            if base == 16 and not isinstance(c, int):
+                # added for C20 (uri_helper.address_from_env): one fork valid / invalid per hex digit instead of one per digit
+                # class (3**10 paths for a 10 digit address otherwise); same value, no other user of int(<symbolic str>, 16)
+                from .models_uri import _hex_value
+                d = _hex_value(I, c)
+            else:
+                d = char_digit(I, c, base)
             if d is None:
                 I.raise_py('ValueError', 'invalid literal for int() with base %d' % base)
             acc = binop(I, '+', binop(I, '*', acc, base), d)
